@@ -263,7 +263,7 @@ func RunFor(s *kernel.Sim, prop string, only map[string]bool) *World {
 	// schedule
 	horizon := time.Duration(t.Range(40, 240)) * time.Minute
 	maxSteps := 6000
-	if t.Bool(1, 12) {
+	if t.Bool(1, 40) {
 		// an outage of the bucket that lasts most of a day: every upload fails
 		w.Bucket.Script = nil
 		for i := 0; i < 1000; i++ {
@@ -364,10 +364,16 @@ func RunFor(s *kernel.Sim, prop string, only map[string]bool) *World {
 			}})
 		}
 		wWrite := 2
-		if w.Bucket.slowRecently(s.Now()) {
-			wWrite = 12 // writes during and right after a slow upload
+		if w.Bucket.slowRecently(s.Now()) && len(en) == 0 {
+			// writes during and right after a slow upload - drawn at quiet
+			// moments, against letting time pass; while tasks are on the move
+			// the ordinary weight applies, so that they get to finish and the
+			// clock is not starved
+			wWrite = 12
 		}
-		if !cancelled && s.Now() < stopWrites {
+		// (at most a few bursts at a time: time only passes when no ticket is
+		// enabled, and an unbounded stream of writers would freeze the clock)
+		if !cancelled && s.Now() < stopWrites && writersBusy < 3 {
 			acts = append(acts, act{wWrite, func() {
 				// a burst of writes
 				nb := t.Range(1, 3)
